@@ -563,7 +563,7 @@ fn main() {
     }
     let corpus_cases = em.cases;
     let langs: Vec<String> = if only.is_empty() { zoo::list() } else { only };
-    let (docs_per_lang, hist_per_doc, exh_docs, exh_max) = if thorough { (60, 16, 8, 200) } else { (16, 6, 3, 60) };
+    let (docs_per_lang, hist_per_doc, exh_docs, exh_max) = if thorough { (48, 14, 8, 200) } else { (16, 6, 3, 60) };
     let mut hist_no = 0usize;
     let mut exhaustive_cases = 0usize;
     for id in langs {
